@@ -407,6 +407,7 @@ class Walker:
         if recv is None:
             recv = fn.cls
         self.root_recv = recv if (fn.cls is not None and not fn.is_static()) else None
+        self.root_is_classmethod = any(d == 'classmethod' for d in getattr(fn, 'decorators', ()))
         st = St(env=env, fn=fn, recv=recv)
         outs = self.run_body(fn.node.body, st)
         res = []
@@ -815,6 +816,8 @@ class Walker:
         if isinstance(v, ast.Name):
             if v.id == 'self' and self.root_recv is not None:
                 return self.root_recv, None
+            if v.id == 'cls' and self.root_recv is not None and getattr(self, 'root_is_classmethod', False):
+                return self.root_recv, None          # cls.<method>(...) inside a classmethod of the analysed class
             info = self.tokens.get(v.id)
             if info:
                 if info[0] == 'new':
